@@ -7,58 +7,6 @@ instances: marginals of a tensor term (`tensorSet_spec`), terms of a term list (
 -/
 namespace PyGam.TA
 
-mutual
-theorem shape_prod : ∀ (t : Tree) (s : List Nat), t.shape = .ok s → prodL s = t.flat.length
-  | .leaf _, s, h => by
-      simp only [Tree.shape, Except.ok.injEq] at h
-      subst h; rfl
-  | .node l, s, h => by
-      simp only [Tree.shape] at h
-      simpa [Tree.flat] using shapeList_prod l s h
-theorem shapeList_prod : ∀ (l : List Tree) (s : List Nat), shapeList l = .ok s → prodL s = (flatL l).length
-  | [], s, h => by
-      simp only [shapeList, Except.ok.injEq] at h
-      subst h; rfl
-  | t :: ts, s, h => by
-      simp only [shapeList, bind, Except.bind] at h
-      cases h1 : t.shape with
-      | error e => simp [h1] at h
-      | ok st =>
-        simp only [h1] at h
-        cases h2 : shapeList ts with
-        | error e => simp [h2] at h
-        | ok r =>
-          simp only [h2] at h
-          have i1 := shape_prod t st h1
-          have i2 := shapeList_prod ts r h2
-          cases ts with
-          | nil =>
-            simp only [Except.ok.injEq] at h
-            subst h
-            simp [prodL, flatL, i1]
-          | cons u us =>
-            cases r with
-            | nil => simp at h
-            | cons n s' =>
-              simp only at h
-              split at h
-              · rename_i heq
-                simp only [Except.ok.injEq] at h
-                subst h; subst heq
-                simp only [prodL] at i2 ⊢
-                simp only [flatL, List.length_append] at i2 ⊢
-                rw [← i1, ← i2, Nat.add_mul]; omega
-              · simp at h
-end
-
-theorem npSize_flatSize (t : Tree) (n : Nat) (h : t.npSize = .ok n) : t.flatSize = n := by
-  unfold Tree.npSize at h
-  cases hs : t.shape with
-  | error e => simp [hs, Except.map] at h
-  | ok s =>
-    simp only [hs, Except.map, Except.ok.injEq] at h
-    rw [Tree.flatSize, ← shape_prod t s hs, h]
-
 section dist
 variable {τ : Type} (skip : τ → Bool) (arity : τ → Except Err Nat) (setOne : τ → Tree → Except Err τ)
   (get : τ → List Sc) (Inv : τ → Prop)
@@ -239,8 +187,8 @@ theorem atom_arity_len (name : String) (a : Atom) (n : Nat) (h : a.arity name = 
   cases hd : dget a.d name with
   | none => simp [hd] at h
   | some v =>
-    simp only [hd, val_npSize, Except.ok.injEq] at h
-    simp [val_flat, h]
+    simp only [hd, Except.ok.injEq, Tree.flatSize] at h
+    simpa using h
 
 /-- `setattr(tensor, name, value)` on valid marginals: the flattened read-back is the assigned value
 (a scalar broadcast to the current size), and the marginals stay valid -/
@@ -286,7 +234,7 @@ theorem getPlural_flat (ts : List Term) (name : String) :
   simp only [getPlural, Tree.flat]
   exact flatL_filter_map Term.isIntercept (fun t => t.getD name) ts
 
-theorem term_arity_len (name : String) (t : Term) (hv : TermValid t) (n : Nat) (h : t.arity name = .ok n) :
+theorem term_arity_len (name : String) (t : Term) (n : Nat) (h : t.arity name = .ok n) :
     ((t.getD name).flat).length = n := by
   cases t with
   | atom a => exact atom_arity_len name a n h
@@ -295,14 +243,14 @@ theorem term_arity_len (name : String) (t : Term) (hv : TermValid t) (n : Nat) (
     simp only [Term.getD]
     cases hd : dget d name with
     | some v =>
-      simp only [hd, val_npSize, Except.ok.injEq] at h
-      simp [val_flat, h]
+      simp only [hd, Except.ok.injEq, Tree.flatSize] at h
+      simpa using h
     | none =>
       simp only [hd] at h ⊢
       split at h
       · rename_i hp
         simp only [hp, if_true]
-        exact npSize_flatSize _ _ h
+        simpa [Tree.flatSize] using h
       · simp at h
 
 theorem term_setOne_spec (name : String) (hn : pluralNames.contains name = true) (t : Term) (hv : TermValid t)
@@ -334,12 +282,12 @@ theorem term_setOne_spec (name : String) (hn : pluralNames.contains name = true)
       rw [validateAtoms_valid ms1 hv1] at hset
       simp only [Except.ok.injEq] at hset
       subst hset
-      refine ⟨?_, rfl, ⟨hv1, hv.2⟩⟩
       have hd : dget d name = none := hv.2 name hn
-      simp only [Term.arity, hd, hn, if_true] at har
-      have hsz := npSize_flatSize _ _ har
+      rw [ddel_of_none d name hd]
+      refine ⟨?_, rfl, ⟨hv1, hv.2⟩⟩
+      simp only [Term.arity, hd, hn, if_true, Except.ok.injEq] at har
       simp only [Term.getD, hd, hn, if_true]
-      rw [hg, hsz, expected_packVals]
+      rw [hg, har, expected_packVals]
 
 /-- `setattr(termlist, name, value)` on valid terms: the flattened read-back is the assigned value
 (a scalar broadcast to the current size); validity is preserved -/
@@ -350,7 +298,7 @@ theorem setPlural_spec (name : String) (hn : pluralNames.contains name = true) (
   rw [Tree.flatSize, getPlural_flat] at h
   have := setSeq_collect Term.isIntercept (Term.arity name) (Term.setOne name) (fun t => (t.getD name).flat) TermValid
     (fun t v t' hinv hs har hset => term_setOne_spec name hn t hinv hs v t' har hset)
-    (fun t n hinv _ har => term_arity_len name t hinv n har)
+    (fun t n _ _ har => term_arity_len name t n har)
     ts hv value ts' h
   rw [getPlural_flat, Tree.flatSize, getPlural_flat]
   exact this
